@@ -1642,17 +1642,17 @@ func (vw *valWorld) expectation(x int, wr *valWrite, changes int) (must, mustNot
 }
 
 func TestC09(t *testing.T) {
-	drive(t, &PropDef{ID: "C09", Gen: genVal("C09"), Decode: decodeInto[ValScenario], Run: runVal, Checks: 50})
+	drive(t, &PropDef{ID: "C09", Gen: genVal("C09"), Decode: decodeInto[ValScenario], Run: runVal, Checks: 50, CrashCapture: true})
 }
 
 func TestC10(t *testing.T) {
-	drive(t, &PropDef{ID: "C10", Gen: genVal("C10"), Decode: decodeInto[ValScenario], Run: runVal, Checks: 50})
+	drive(t, &PropDef{ID: "C10", Gen: genVal("C10"), Decode: decodeInto[ValScenario], Run: runVal, Checks: 50, CrashCapture: true})
 }
 
 func TestC11(t *testing.T) {
-	drive(t, &PropDef{ID: "C11", Gen: genVal("C11"), Decode: decodeInto[ValScenario], Run: runVal, Checks: 50})
+	drive(t, &PropDef{ID: "C11", Gen: genVal("C11"), Decode: decodeInto[ValScenario], Run: runVal, Checks: 50, CrashCapture: true})
 }
 
 func TestC12(t *testing.T) {
-	drive(t, &PropDef{ID: "C12", Gen: genVal("C12"), Decode: decodeInto[ValScenario], Run: runVal, Checks: 50})
+	drive(t, &PropDef{ID: "C12", Gen: genVal("C12"), Decode: decodeInto[ValScenario], Run: runVal, Checks: 50, CrashCapture: true})
 }
